@@ -157,6 +157,52 @@ class UBody:
             return self.unit.get(key)
         return "CONST" if o["k"] == "const" and re.search(r"\d+_usize", o["val"]) else None
 
+    def capacity_only(self):
+        """locals whose value only ever reaches the capacity argument of with_capacity / reserve* (directly or through
+        further arithmetic and overflow assertions): a performance hint, never an address or a dimension"""
+        if hasattr(self, "_cap"):
+            return self._cap
+        b = self.b
+        uses = {}        # local -> list of ("cap",) | ("into", dest_local) | ("other",)
+        def use(o, what):
+            if o and o.get("k") in ("copy", "move"):
+                uses.setdefault(o["p"]["local"], []).append(what)
+        for bl in b["blocks"]:
+            for st in bl["stmts"]:
+                if st["k"] != "assign":
+                    continue
+                rv = st["rv"]
+                dest = ("into", st["p"]["local"]) if not any(e["k"] == "deref" for e in st["p"]["proj"]) else ("other",)
+                for o in [rv.get("o"), rv.get("l"), rv.get("r")] + list(rv.get("fields", []) or []):
+                    use(o, dest)
+                if rv.get("p"):
+                    uses.setdefault(rv["p"]["local"], []).append(("other",))
+            t = bl["term"]
+            if not t:
+                continue
+            if t["k"] == "call":
+                fn = t["func"].get("fn") or {}
+                capcall = fn.get("name") in ("with_capacity", "reserve", "reserve_exact", "try_reserve", "try_reserve_exact") and (fn.get("path") or "").startswith("alloc::")
+                for i, a in enumerate(t["args"]):
+                    use(a, ("cap",) if capcall and i == len(t["args"]) - 1 else ("other",))
+            elif t["k"] == "assert":
+                use(t.get("cond"), ("assert",))
+            elif t["k"] == "switch":
+                use(t.get("discr"), ("other",))
+            elif t["k"] == "drop":
+                uses.setdefault(t["p"]["local"], []).append(("other",))
+        cap = set()
+        changed = True
+        while changed:
+            changed = False
+            for l, us in uses.items():
+                if l in cap or l <= b["arg_count"]:
+                    continue
+                if us and all(u[0] in ("cap", "assert") or (u[0] == "into" and u[1] in cap) for u in us) and any(u[0] != "assert" for u in us):
+                    cap.add(l); changed = True
+        self._cap = cap
+        return cap
+
     def err(self, rule, desc, msg, span):
         self.errors.append((rule, desc, msg, span))
 
@@ -313,7 +359,10 @@ class UBody:
                                     if l == sk[0] and path[:len(sk[1])] == sk[1] and len(path) > len(sk[1]):
                                         changed |= self.setu((key[0], key[1] + path[len(sk[1]):]), uu, "tuple copy")
                     elif rv["k"] == "binop":
+                        ne_ = len(self.errors)
                         u = self.combine(rv["op"], self.op_unit(rv["l"]), self.op_unit(rv["r"]), st["span"], rv["l"], rv["r"])
+                        if st["p"]["local"] in self.capacity_only():
+                            del self.errors[ne_:]       # a capacity hint (Vec::with_capacity / reserve): its value changes no behaviour
                         if rv["op"].endswith("WithOverflow") and key and u in (ROW, COL, CELL):
                             changed |= self.setu((key[0], key[1] + (0,)), u, "ovf tuple")
                             u = None
